@@ -1025,8 +1025,10 @@ def c04_history(model, meta):
                 cached = {}
                 if psutil._pmap:
                     problems.append("cache_clear() left entries behind")
-            elif kind == "isrun":
+            elif kind in ("isrun", "isrun_pid"):
                 for obj, pid, tick in handles:
+                    if kind == "isrun_pid" and pid != ev[1]:
+                        continue
                     alive = tb.procs.get(pid) == tick
                     r = obj.is_running()
                     if r != alive:
@@ -1039,8 +1041,28 @@ def c04_history(model, meta):
                         pending_reused.add(pid)
                         cached.pop(pid, None)
                         stale[id(obj)] = obj
-            elif kind in ("iter", "iter_partial", "iter_attrs"):
+            elif kind in ("iter", "iter_partial", "iter_attrs", "iter_late_verdict"):
                 attrs = ["pid", "name"] if kind == "iter_attrs" else None
+                late_patch = None
+                if kind == "iter_late_verdict":
+                    # another thread's is_running() finds PID ev[1] recycled while this pass is busy replacing the entries
+                    # already reported (the hook sits on the debug() call inside that loop); its verdict must not be lost
+                    late_pid, fired = ev[1], []
+                    real_debug = psutil.debug
+
+                    def late_debug(msg):
+                        if not fired and "refreshing Process instance" in str(msg):
+                            fired.append(1)
+                            for obj, pid, tick in list(handles):
+                                if pid == late_pid and tb.procs.get(pid) != tick and not obj.is_running() \
+                                        and pid in tb.procs and getattr(obj, "_pid_reused", False):
+                                    pending_reused.add(pid)
+                                    cached.pop(pid, None)
+                                    stale[id(obj)] = obj
+                        return real_debug(msg)
+                    late_patch = mock.patch.object(psutil, "debug", late_debug)
+                    late_patch.start()
+                    kind = "iter"
                 if held is not None:
                     consumed_while_held |= set(_reused_set(psutil))
                 gen = psutil.process_iter(attrs)
@@ -1053,6 +1075,8 @@ def c04_history(model, meta):
                             break
                 finally:
                     gen.close()
+                    if late_patch is not None:
+                        late_patch.stop()
                 listed = sorted(tb.procs)
                 pids = [p.pid for p in got]
                 want = listed[:limit]
@@ -1147,6 +1171,11 @@ C04_LONG = [
     [("spawn", 3), ("iter",), ("reuse", 3), ("isrun",), ("iter",), ("iter",), ("isrun",), ("iter",), ("iter",), ("iter",)],
     [("spawn", 2), ("iter",), ("reuse", 2), ("isrun",), ("iter",), ("iter",), ("reuse", 2), ("isrun",), ("iter",), ("iter",),
      ("iter",), ("iter",)],
+    # two threads: while one pass replaces the entry of PID 2 (reported recycled), another thread's is_running() reports PID 3
+    [("spawn", 2), ("spawn", 3), ("iter",), ("reuse", 2), ("reuse", 3), ("isrun_pid", 2), ("iter_late_verdict", 3), ("iter",),
+     ("iter",), ("iter",)],
+    [("spawn", 2), ("spawn", 3), ("iter",), ("reuse", 3), ("reuse", 2), ("isrun_pid", 3), ("iter_late_verdict", 2), ("iter",),
+     ("iter",)],
     # a partially consumed iterator in flight while a PID it handed out is recycled and found so by is_running()
     [("spawn", 2), ("spawn", 3), ("iter_hold", 2), ("reuse", 2), ("isrun",), ("iter_resume",), ("iter",), ("iter",), ("iter",)],
     [("spawn", 2), ("iter",), ("spawn", 3), ("iter_hold", 3), ("reuse", 3), ("isrun",), ("iter_resume",), ("iter",), ("iter",),
